@@ -9,7 +9,8 @@ Well-formedness of checkpoint files: Spec/CheckpointSpec.lean.
   `checkpoint_file_selection`  what is read from one well-formed file (3 layouts)
   `checkpoint_it_exact`        T4 for checkpoints: one iteration, every requested variable:
                                the stored interior grid in (x, y, z) order and the stored time
-  `checkpoint_table_exact`     all requested iterations, ANY request list (a name twice, `gxx`
+  `checkpoint_it_auto_exact`   the same with `cmax` found from the files of the iteration (/repo bd9646b)
+  `checkpoint_table_exact`     all requested iterations, ANY layout per iteration, ANY request list (a name twice, `gxx`
                                next to `gammadown3`, `alp` next to `alpha`: read once, /repo a25772a):
                                `data['it']`, `data['t']` and every variable column, exactly one entry
                                per iteration, in order
@@ -20,9 +21,10 @@ Well-formedness of checkpoint files: Spec/CheckpointSpec.lean.
   `checkpoint_prefix_body_duplicates`     (a Lean fact about the body WITHOUT the de-duplication =
                                the code before a25772a, not replayed: two entries per iteration)
 
-NOT covered: the same variable name in two thorns of one file (not modelled);
-checkpoint files of one restart written with different process counts
-(`findCmax` is taken from the first requested iteration — hypothesis `hcm`).
+NOT covered HERE (see Props/C11d.lean): the same variable name in two thorns of one
+file (Model/Checkpoint.lean returns `none`; literal model Model/MultiThorn.lean);
+Checkpoint files of one restart written with different process counts: covered since
+/repo bd9646b (`cmaxOf` per iteration; `GoodItAuto`; no `cmax` hypothesis any more).
 -/
 import AurelVerif.Lemmas.C11CheckpointE2E
 
@@ -50,41 +52,51 @@ theorem checkpoint_it_exact {α : Type} (cmax : CMax) (files : List (CFile α)) 
     readIt cmax files iit rl var = some (some (tm, var.map fun v => fixij (A v))) :=
   readIt_good cmax files iit rl var hn hvar A tm h
 
-/-- **all requested iterations, any request list**: `data['it']` is the sorted set of the
-requested iterations; `data['t']` and every variable column hold exactly one entry per
+/-- **T4 (checkpoints), layout found per iteration** (/repo bd9646b): the iteration is well-formed in
+whichever layout it was written (`GoodItAuto`: one file, one file with components, one file per process
+with any number of processes); the reader determines `cmax` from the files of THIS iteration. -/
+theorem checkpoint_it_auto_exact {α : Type} (files : List (CFile α)) (iit rl : Nat) (var : List String)
+    (hn : var.Nodup) (hvar : var ≠ []) (A : String → Arr3 α) (tm : Nat)
+    (h : GoodItAuto files iit rl var A tm) :
+    readItAuto files iit rl var = some (some (tm, var.map fun v => fixij (A v))) :=
+  readItAuto_good files iit rl var hn hvar A tm h
+
+/-- **all requested iterations, any request list, any layout per iteration**: `data['it']` is the sorted set
+of the requested iterations; `data['t']` and every variable column hold exactly one entry per
 iteration, in that order; a variable named several times in the request has ONE column
 (`var.eraseDups` = `list(dict.fromkeys(var))`).  (`toAurel` =
-`transform_vars_ET_to_aurel`, injective on the requested names and never `'t'`.) -/
+`transform_vars_ET_to_aurel`, injective on the requested names and never `'t'`.)  No hypothesis on
+`cmax`: checkpoints of one restart may have been written by different numbers of processes
+(code as of /repo bd9646b; before, `cmax` came from the first requested iteration). -/
 theorem checkpoint_table_exact {α : Type} (toAurel : String → String) (files : List (CFile α)) (var : List String)
     (hvar : var ≠ []) (hinj : ∀ a ∈ var, ∀ b ∈ var, toAurel a = toAurel b → a = b)
-    (ht : ∀ v ∈ var, toAurel v ≠ "t") (its : List Nat) (rl : Nat) (cmax : CMax)
-    (hc : findCmax files (sortedSet its) = some cmax) (A : Nat → String → Arr3 α) (tm : Nat → Nat)
-    (hgood : ∀ iit ∈ sortedSet its, GoodIt cmax files iit rl var (A iit) (tm iit)) :
+    (ht : ∀ v ∈ var, toAurel v ≠ "t") (its : List Nat) (hits : its ≠ []) (rl : Nat)
+    (A : Nat → String → Arr3 α) (tm : Nat → Nat)
+    (hgood : ∀ iit ∈ sortedSet its, GoodItAuto files iit rl var (A iit) (tm iit)) :
     readCheckpoints toAurel files var its rl
       = some ⟨sortedSet its, ("t", (sortedSet its).map fun i => Cell.t (tm i))
           :: var.eraseDups.map fun v => (toAurel v, (sortedSet its).map fun i => Cell.arr (fixij (A i v)))⟩ :=
-  readCheckpoints_good toAurel files var hvar hinj ht its rl cmax hc A tm hgood
+  readCheckpoints_good toAurel files var hvar hinj ht its hits rl A tm hgood
 
 /-- **whole checkpoint pipeline**: `read_ET_data(it=its, usecheckpoints=True, restart=-1)`
 over any number of restarts whose checkpoint lists overlap in any way, any request
-(duplicate names included): one row per requested iteration that is a checkpoint of some
-restart, increasing; row `(it, r)` with `r` the LAST restart listing `it`; the `t` entry
+(duplicate names included), every checkpoint in its own layout: one row per requested iteration that is
+a checkpoint of some restart, increasing; row `(it, r)` with `r` the LAST restart listing `it`; the `t` entry
 and every variable entry of that row are the time and the interior grids stored in
 restart `r`'s checkpoint of iteration `it`; no `None`.  (Nothing to read: the empty
-dictionary.) -/
+dictionary.)  No `cmax` hypothesis. -/
 theorem checkpoint_pipeline_exact {α : Type} (toAurel : String → String) (cats : List Cat)
     (hnd : (cats.map (·.num)).Nodup) (files : Nat → List (CFile α)) (var : List String)
     (hvar : var ≠ []) (hinj : ∀ a ∈ var, ∀ b ∈ var, toAurel a = toAurel b → a = b)
-    (ht : ∀ v ∈ var, toAurel v ≠ "t") (rl : Nat) (cm : Nat → CMax)
+    (ht : ∀ v ∈ var, toAurel v ≠ "t") (rl : Nat)
     (A : Nat → Nat → String → Arr3 α) (tm : Nat → Nat → Nat)
-    (hcm : ∀ r l, l ≠ [] → (∀ it ∈ l, pick true cats it = some r) → findCmax (files r) l = some (cm r))
-    (hgood : ∀ r it, pick true cats it = some r → GoodIt (cm r) (files r) it rl var (A r it) (tm r it))
+    (hgood : ∀ r it, pick true cats it = some r → GoodItAuto (files r) it rl var (A r it) (tm r it))
     (its : List Nat) :
     readETData true cats none its (fun r l => readCheckpoints toAurel (files r) var l rl)
       = some ((rowsOf true cats its).map Prod.fst,
               aligned (if rowsOf true cats its = [] then [] else "t" :: var.eraseDups.map toAurel) fun k =>
                 (rowsOf true cats its).map fun p => some (ckCell toAurel var.eraseDups A tm p.2 k p.1)) :=
-  checkpoint_pipeline_lemma toAurel cats hnd files var hvar hinj ht rl cm A tm hcm hgood its
+  checkpoint_pipeline_lemma toAurel cats hnd files var hvar hinj ht rl A tm hgood its
 
 /-! ### witnesses -/
 
@@ -173,9 +185,8 @@ twice in the request), and the conclusion on this instance by evaluation -/
 example : GoodIt CMax.inFile ckFiles 8 0 ["alp"] (fun _ => [[[58]]]) 508 := ckGoodIt 8 58 (Or.inr rfl) rfl
 example : GoodIt CMax.inFile ckFiles 8 0 ["alp", "alp"] (fun _ => [[[58]]]) 508 :=
   goodIt_congr (var := ["alp"]) (by intro v hv; simpa using hv) (ckGoodIt 8 58 (Or.inr rfl) rfl)
-example : findCmax ckFiles (sortedSet [8, 0, 8]) = some CMax.inFile := by
-  have : sortedSet [8, 0, 8] = [0, 8] := by decide
-  rw [this]; rfl
+example : GoodItAuto ckFiles 8 0 ["alp"] (fun _ => [[[58]]]) 508 :=
+  ⟨CMax.inFile, (by show (filesOf ckFiles 8).length = 1; rfl), ckGoodIt 8 58 (Or.inr rfl) rfl⟩
 example : (readCheckpoints id ckFiles ["alp"] [8, 0, 8] 0).map ckShow
     = some ([0, 8], [("t", [[500], [508]]), ("alp", [[50], [58]])]) := by decide +kernel
 
